@@ -274,7 +274,8 @@ bool MLAB::apply(hlim::NodeGroup *nodeGroup) const
 	{
 		ALTDPRAM::PortSetup portSetup;
 		portSetup.outputRegs = (rp.dedicatedReadLatencyRegisters.size() > 0) && !retimeReadPortByOne;
-		size_t numExternalOutputRegisters = rp.dedicatedReadLatencyRegisters.size()-1;
+		// no dedicated read latency registers (asynchronous read): nothing to add externally, and size()-1 must not wrap around
+		size_t numExternalOutputRegisters = rp.dedicatedReadLatencyRegisters.empty() ? 0 : rp.dedicatedReadLatencyRegisters.size()-1;
 		altdpram->setupReadPort(portSetup);
 
 		UInt rdAddr = (UInt) getBVecBefore({.node = rp.node.get(), .port = (size_t)hlim::Node_MemPort::Inputs::address});
